@@ -249,7 +249,7 @@ Proof.
   intros j Hj. rewrite (H j Hj). lia.
 Qed.
 
-(* what the code does today is exact as long as every number involved is below 2^63 *)
+(* Range before bb5ec1b is exact as long as every number involved is below 2^63 *)
 Lemma range_def_exact c b l os from to :
   ring_inv c b l -> (Z.of_nat c <= max_make)%Z -> consec os l ->
   (1 <= os)%Z -> (os + Z.of_nat (length l) <= two63)%Z ->
@@ -350,7 +350,7 @@ Proof.
   - exact Hto.
 Qed.
 
-Lemma backlog_range_today cap qs first from to :
+Lemma backlog_range_before_fix cap qs first from to :
   (0 < cap <= max_make)%Z -> consec first qs -> (1 <= first)%Z -> (first + Z.of_nat (length qs) <= two63)%Z ->
   (0 <= from < two63)%Z -> (0 <= to < two63)%Z ->
   range defective (fold_left push qs (new_ring cap)) from to =
@@ -1226,7 +1226,7 @@ Proof.
 Qed.
 
 (* ================================================================== *)
-(* 5. today's receiver: the store converges when every retransmission   *)
+(* 5. no sequence comparison: the store converges when every retransmission *)
 (*    runs on to the newest delivered message (last writer wins)        *)
 (* ================================================================== *)
 Definition store_step (st : list ((N * N) * checkpoint)) (q : req) : list ((N * N) * checkpoint) :=
@@ -1235,14 +1235,14 @@ Definition store_step (st : list ((N * N) * checkpoint)) (q : req) : list ((N * 
   | _ => aset keyeqb (cp_key (q_cp q)) (q_cp q) st
   end.
 
-Lemma store_of_step_today fl rc q : f_stale fl = true -> rc_store (recv_step fl rc q) = store_step (rc_store rc) q.
+Lemma store_of_step_nocmp fl rc q : f_stale fl = true -> rc_store (recv_step fl rc q) = store_step (rc_store rc) q.
 Proof. intros Hs. unfold recv_step, store_step. rewrite Hs. simpl. destruct (q_act q); reflexivity. Qed.
 
-Lemma store_of_run_today fl qs : f_stale fl = true ->
+Lemma store_of_run_nocmp fl qs : f_stale fl = true ->
   forall rc, rc_store (recv_run fl rc qs) = fold_left store_step qs (rc_store rc).
 Proof.
   intros Hs. induction qs as [|q r IH]; intros rc; [reflexivity|].
-  rewrite recv_run_cons, IH, store_of_step_today by exact Hs. reflexivity.
+  rewrite recv_run_cons, IH, store_of_step_nocmp by exact Hs. reflexivity.
 Qed.
 
 Fixpoint last_write (k : N * N) (qs : list req) : option (option checkpoint) :=
@@ -1302,7 +1302,7 @@ Proof.
     destruct (last_write k (firstn (b - m) (skipn m reqs))); [discriminate|]. rewrite E. reflexivity.
 Qed.
 
-Lemma converges_store_today g0 cap g fl evs d :
+Lemma converges_store_replays g0 cap g fl evs d :
   f_stale fl = true ->
   g <> 0%N -> (forall e, In e evs -> s_srg (fst e) = g) -> (N.of_nat (length evs) < n64)%N ->
   let reqs := snd (sender_run [(g, (0%N, new_ring cap))] evs) in
@@ -1314,7 +1314,7 @@ Proof.
   destruct (stream_of_sender cap g evs Hg Hall Hlt) as [E _]. rewrite E in Hd.
   destruct (store_inorder fl g evs 0%N (mkrecv [] [] g0) [] eq_refl eq_refl) as [A _].
   unfold live_run. fold (live_fold [] evs). rewrite <- A.
-  rewrite !(store_of_run_today fl _ Hs), !aget_store_run. cbn [rc_store].
+  rewrite !(store_of_run_nocmp fl _ Hs), !aget_store_run. cbn [rc_store].
   pose proof (runs_last_write _ _ _ _ Hd [] (fun k' => eq_refl) k) as R. simpl in R.
   rewrite R, firstn_all. reflexivity.
 Qed.
@@ -1618,7 +1618,7 @@ Lemma expected_by_last_write fl g evs k : f_stale fl = true ->
 Proof.
   intros Hs.
   destruct (store_inorder fl g evs 0%N (mkrecv [] [] (mkreg [] [] [])) [] eq_refl eq_refl) as [A _].
-  unfold live_run. fold (live_fold [] evs). rewrite <- A, (store_of_run_today fl _ Hs), aget_store_run. reflexivity.
+  unfold live_run. fold (live_fold [] evs). rewrite <- A, (store_of_run_nocmp fl _ Hs), aget_store_run. reflexivity.
 Qed.
 
 (* ---------- facts about the live set ---------- *)
@@ -1879,7 +1879,7 @@ Proof.
   { unfold live_run. change (fold_left _ evs1 []) with (live_fold [] evs1).
     change (fold_left _ (evs1 ++ evs2) []) with (live_fold [] (evs1 ++ evs2)). symmetry. apply live_fold_app. }
   split; [exact Hlive|]. split; [reflexivity|]. split; [rewrite app_length, !reqs_from_length; reflexivity|].
-  intros k. rewrite (store_of_run_today fl _ Hfs), aget_store_run, Hlook, Hlive.
+  intros k. rewrite (store_of_run_nocmp fl _ Hfs), aget_store_run, Hlook, Hlive.
   rewrite (expected_by_last_write fl g (evs1 ++ evs2) k Hfs), (expected_by_last_write fl g evs1 k Hfs).
   rewrite reqs_from_app, N.add_0_l, last_write_app.
   destruct (last_write k (reqs_from g (N.of_nat (length evs1)) evs2)); reflexivity.
@@ -1894,7 +1894,7 @@ Proof.
 Qed.
 
 (* a delivery whose store write failed, followed by its retransmission, is one successful delivery — for every flag
-   set (today lastSeq has already moved when the write fails; nothing consults it) *)
+   set (/repo HEAD has already moved lastSeq when the write fails; nothing consults it) *)
 Lemma failed_then_retransmitted fl rc q : recv_step fl (recv_fail fl rc q) q = recv_step fl rc q.
 Proof.
   unfold recv_fail. destruct (f_stale fl) eqn:Hs; [|reflexivity].
